@@ -31,12 +31,14 @@ type jsession struct {
 	arena    [2][]int // two producers' batches, chunks of which arrive interleaved
 	arenaPos [2]int
 	arenaN   int
-	w        *px.Writer
-	kind     string
-	ver      string
-	size     uint
-	timeout  time.Duration
-	nocopy   bool
+	// what every input slice contained when it was handed to the discipline
+	inputCopy map[int][]int
+	w         *px.Writer
+	kind      string
+	ver       string
+	size      uint
+	timeout   time.Duration
+	nocopy    bool
 
 	process   func(id int, xs []int)
 	pass      func()
@@ -290,6 +292,10 @@ func (s *jsession) exec(op string) string {
 			s.arenaPos[a] += len(xs)
 		}
 		s.inputs[id] = xs
+		if s.inputCopy == nil {
+			s.inputCopy = map[int][]int{}
+		}
+		s.inputCopy[id] = append([]int(nil), xs...)
 		s.consumed = append(s.consumed, append([]int(nil), xs...))
 		hadBuf := len(s.buffer()) > 0
 		paWas := s.getPassAt()
